@@ -42,7 +42,7 @@ func (Engine) Name() string { return "e1front" }
 
 var runs = map[string][2]int{ // quick, thorough
 	"C01": {600, 60000},
-	"C02": {6, 300},
+	"C02": {360, 30000},
 	"C03": {700, 80000},
 	"C04": {1500, 300000},
 	"C05": {1200, 200000},
